@@ -236,8 +236,10 @@ def gen_desc(rng, max_decls=8, used=None):
                             "alias": alias, "items": items})
         elif r < 0.87:
             name = fresh("Svc")
-            ms = [{"name": rng.choice(WORDS) + str(j), "input": rng.choice(structs), "id": j, "output": rng.choice(structs)}
-                  for j in range(rng.randint(1, 3))]
+            nm = rng.randint(1, 4)
+            mids = rng.sample(range(0, 12), nm)  # ids in any order: the tree keeps source order, not id order
+            ms = [{"name": rng.choice(WORDS) + str(j), "input": rng.choice(structs), "id": mids[j], "output": rng.choice(structs)}
+                  for j in range(nm)]
             d.decls.append({"k": "service", "name": name, "id": rng.randint(0, 200), "methods": ms})
             services.append(name)
         else:
